@@ -173,6 +173,8 @@ fn build(ch: &mut Chooser, fmt: &'static str, thorough: bool) -> PCase {
         let len = [40usize, 0, 5000, 4096, 9000][ch.choose("module-source-length", 5)];
         let mut src = source_of(len, (i % 3) as u8);
         if cp == 932 { for b in src.iter_mut() { if *b >= 0x80 { *b = b'?'; } } }
+        // bytes above 0x7F that happen to form well-formed UTF-8: still text in the project's code page
+        if cp == 1252 && ch.flag("module-bytes-form-valid-utf8") { src = b"' caf\xc3\xa9 \xd0\xb0\xc2\xa3\r\nSub A()\r\nEnd Sub\r\n".to_vec(); }
         modules.push(VModule { name: names[i].to_string(), stream_name: if ch.flag("stream-name-differs") { format!("Strm{i}") } else { names[i].to_string() }, source: src,
             text_offset: [0usize, 5, 1000][ch.choose("module-text-offset", 3)], mode: ch.choose("module-compression", 3) as u8, class_module: ch.flag("class-module"), read_only: ch.flag("module-readonly"), private: ch.flag("module-private") });
     }
